@@ -5,6 +5,8 @@ From DV Require Import Model.PyPrims Model.C10Model Proofs.C10Lists.
 Import ListNotations.
 Open Scope Z_scope.
 
+Ltac nsimpl := cbn [taxa acc rev count bm is_mut is_cs w_ns w_lab w_next fst snd] in *.
+
 Record Inv (n : ns) : Prop := mkInv {
   inv_nodup : NoDup (taxa n);
   inv_dom : forall t, In t (taxa n) <-> exists i, alookup t (acc n) = Some i;
@@ -55,12 +57,12 @@ Qed.
 (* only the flags differ *)
 Lemma Inv_flags tx ac rv c b m1 c1 m2 c2 :
   Inv (mkNs tx ac rv c b m1 c1) -> Inv (mkNs tx ac rv c b m2 c2).
-Proof. intros [A B C D E F G]. constructor; simpl in *; assumption. Qed.
+Proof. intros [A B C D E F G]. constructor; nsimpl; assumption. Qed.
 
 Lemma Inv_perm n tx m c : Permutation (taxa n) tx -> Inv n ->
   Inv (mkNs tx (acc n) (rev n) (count n) (bm n) m c).
 Proof.
-  intros P [A B C D E F G]. constructor; simpl; try assumption.
+  intros P [A B C D E F G]. constructor; nsimpl; try assumption.
   - eapply Permutation_NoDup; eauto.
   - intros t. rewrite <- B. split; apply Permutation_in; [apply Permutation_sym|]; exact P.
 Qed.
@@ -73,7 +75,7 @@ Proof.
   - intros E; inversion E; subst; exact I.
   - destruct (negb (is_mut n)); [discriminate|]. intros E; inversion E; subst; clear E.
     destruct I as [Hnd Hdom Hrng Hinj Hrev Hbm Hc].
-    apply Inv_intro; simpl.
+    apply Inv_intro; nsimpl.
     + apply NoDup_app_single; [exact Hnd|]. rewrite Hdom. intros [i Hi]. congruence.
     + intros t'. rewrite in_app_iff, alookup_aset. simpl. destruct (Z.eqb t' t) eqn:E.
       * apply Z.eqb_eq in E. subst. split; eauto.
@@ -81,9 +83,7 @@ Proof.
     + intros t' i. rewrite alookup_aset. destruct (Z.eqb t' t); intros H;
         [inversion H; lia | apply Hrng in H; lia].
     + intros t' i. rewrite !alookup_aset.
-      destruct (Z.eqb i (count n)) eqn:E1; destruct (Z.eqb t' t) eqn:E2;
-        try apply Z.eqb_eq in E1; try apply Z.eqb_eq in E2;
-        try apply Z.eqb_neq in E1; try apply Z.eqb_neq in E2; subst.
+      destruct (Z.eqb_spec i (count n)) as [E1|E1]; destruct (Z.eqb_spec t' t) as [E2|E2]; subst.
       * split; reflexivity.
       * split; [intros H; inversion H; congruence|]. intros H. apply Hrng in H. lia.
       * split; [|intros H; inversion H; congruence]. intros H. apply Hrev in H. congruence.
@@ -101,17 +101,15 @@ Proof.
   intros E; inversion E; subst; clear E.
   apply memb_In in M. destruct (Inv_member_index n t I M) as (i & Hi & Hr & Hv).
   rewrite Hi. destruct I as [Hnd Hdom Hrng Hinj Hrev Hbm Hc].
-  apply Inv_intro; simpl.
+  apply Inv_intro; nsimpl.
   - apply NoDup_remove_all. exact Hnd.
   - intros t'. rewrite In_remove_all, alookup_aremove. destruct (Z.eqb t' t) eqn:E.
     + apply Z.eqb_eq in E. split; [tauto| intros [j H]; discriminate].
     + apply Z.eqb_neq in E. rewrite Hdom. tauto.
   - intros t' j. rewrite alookup_aremove. destruct (Z.eqb t' t); [discriminate| apply Hrng].
   - intros t' j. rewrite !alookup_aremove.
-    destruct (Z.eqb j i) eqn:E1; destruct (Z.eqb t' t) eqn:E2;
-      try apply Z.eqb_eq in E1; try apply Z.eqb_eq in E2;
-      try apply Z.eqb_neq in E1; try apply Z.eqb_neq in E2; subst.
-    + tauto.
+    destruct (Z.eqb_spec j i) as [E1|E1]; destruct (Z.eqb_spec t' t) as [E2|E2]; subst.
+    + split; discriminate.
     + split; [discriminate|]. intros H. exfalso. apply E2. eapply Hinj; eauto.
     + split; [|discriminate]. intros H. apply Hrev in H. congruence.
     + apply Hrev.
@@ -135,11 +133,11 @@ Lemma taxon_bitmask_spec n t n' m : Inv n -> taxon_bitmask n t = Ok (n', m) ->
   Inv n' /\ same_core n n' /\ exists i, alookup t (acc n) = Some i /\ m = Z.shiftl 1 i.
 Proof.
   intros I. unfold taxon_bitmask. destruct (alookup t (bm n)) eqn:B.
-  - intros E; inversion E; subst. split; [exact I|]. split; [apply same_core_refl|].
+  - intros E; inversion E; subst n' m. split; [exact I|]. split; [apply same_core_refl|].
     apply (inv_bm n I). exact B.
-  - destruct (alookup t (acc n)) eqn:A; [|discriminate]. intros E; inversion E; subst; clear E.
+  - destruct (alookup t (acc n)) eqn:A; [|discriminate]. intros E; inversion E; subst n' m; clear E.
     split; [|split; [repeat split| eauto]].
-    destruct I as [Hnd Hdom Hrng Hinj Hrev Hbm Hc]. constructor; simpl; try assumption.
+    destruct I as [Hnd Hdom Hrng Hinj Hrev Hbm Hc]. constructor; nsimpl; try assumption.
     intros t' m. rewrite alookup_aset. destruct (Z.eqb t' t) eqn:E.
     + apply Z.eqb_eq in E. subst. intros H; inversion H. eauto.
     + apply Hbm.
@@ -152,7 +150,7 @@ Proof.
   unfold taxon_bitmask. destruct (alookup t (bm n)) eqn:B.
   - destruct (inv_bm n I t z B) as (j & Hj & Hz). assert (j = i) by congruence. subst.
     eexists; exists i; split; [reflexivity| exact H].
-  - rewrite H. eexists; exists i; split; [reflexivity| exact H].
+  - rewrite H. eexists; exists i; split; reflexivity.
 Qed.
 
 Lemma taxon_bitmask_err n t : taxon_bitmask n t <> OutOfFuel.
@@ -233,7 +231,7 @@ Proof.
   - unfold add_taxon in E. destruct (alookup t (acc n)) eqn:A.
     + inversion E; subst. apply grows_refl.
     + destruct (is_mut n) eqn:M; simpl in E; [|discriminate]. inversion E; subst; clear E.
-      constructor; simpl.
+      constructor; nsimpl.
       * intros t' i H. rewrite alookup_aset_neq; [exact H| congruence].
       * intros t' H. apply in_or_app. left. exact H.
       * lia.
@@ -242,9 +240,9 @@ Proof.
   - unfold taxon_bitmask in E. destruct (alookup t (bm n)).
     + inversion E; subst. apply grows_refl.
     + destruct (alookup t (acc n)); [|discriminate]. inversion E; subst.
-      constructor; simpl; auto. lia.
-  - constructor; simpl; auto. + intros t. apply Permutation_in. exact P. + lia.
-  - constructor; simpl; auto. lia.
+      constructor; nsimpl; auto. lia.
+  - constructor; nsimpl; auto. + intros t. apply Permutation_in. exact P. + lia.
+  - constructor; nsimpl; auto. lia.
 Qed.
 
 Lemma star_grows n n' : star grow1 n n' -> grows n n'.
@@ -272,10 +270,10 @@ Lemma shrink1_shrinks n n' : shrink1 n n' -> shrinks n n'.
 Proof.
   intros G. destruct G as [n t n' E|n].
   - unfold remove_taxon in E. destruct (memb t (taxa n)); simpl in E; [|discriminate].
-    inversion E; subst; clear E. constructor; simpl; auto.
+    inversion E; subst; clear E. constructor; nsimpl; auto.
     + intros t' i. rewrite alookup_aremove. destruct (Z.eqb t' t); [discriminate| auto].
     + intros t'. rewrite In_remove_all. tauto.
-  - constructor; simpl; auto. + discriminate. + contradiction.
+  - constructor; nsimpl; auto. + discriminate. + contradiction.
 Qed.
 
 Lemma star_shrinks n n' : star shrink1 n n' -> shrinks n n'.
@@ -301,6 +299,9 @@ Proof.
   - destruct (taxon_bitmask n t) as [[n1 m1]| |] eqn:R; try discriminate. intros E.
     eapply star_step; [eapply G_memo; exact R| eapply IH; exact E].
 Qed.
+
+Lemma op_eq_DeepCopy_dec (o : op) : {o = DeepCopy} + {o <> DeepCopy}.
+Proof. destruct o; try (right; discriminate). left; reflexivity. Qed.
 
 Section WithLower.
 Variable lower : lbl -> lbl.
@@ -364,8 +365,7 @@ Lemma fresh_map_inj ts next t1 t2 x :
   alookup t1 (fresh_map ts next) = Some x -> alookup t2 (fresh_map ts next) = Some x -> t1 = t2.
 Proof.
   revert next. induction ts as [|y r IH]; intros next; simpl; [discriminate|].
-  destruct (Z.eqb t1 y) eqn:E1; destruct (Z.eqb t2 y) eqn:E2;
-    try apply Z.eqb_eq in E1; try apply Z.eqb_eq in E2; subst.
+  destruct (Z.eqb_spec t1 y) as [E1|E1]; destruct (Z.eqb_spec t2 y) as [E2|E2]; subst.
   - reflexivity.
   - intros H1 H2. inversion H1; subst. apply fresh_map_lookup in H2. lia.
   - intros H1 H2. inversion H2; subst. apply fresh_map_lookup in H1. lia.
